@@ -137,6 +137,14 @@ Touched(fs, L) == LET f == Final(L, fs, Fuel)
                   IN IF ~f.ok \/ Kind(fs, f.p) = "none" THEN {}
                      ELSE {f.p} \cup (IF Kind(fs, f.p) = "hard" THEN {Ent(fs, f.p).to} ELSE {})
 
+(* lexical normalisation of a name (tarfile compares member names this way when it looks a link target up) *)
+RECURSIVE NormAcc(_, _)
+NormAcc(segs, acc) ==
+    IF segs = <<>> THEN acc
+    ELSE IF Head(segs) = ".." /\ acc # <<>> /\ Last(acc) \notin {"..", ""} THEN NormAcc(Tail(segs), Front(acc))
+    ELSE NormAcc(Tail(segs), Append(acc, Head(segs)))
+Norm(s) == NormAcc(s, <<>>)
+
 (* ---- a member of kind k (file, dir, sym) materialised at location L (tarfile.makefile / makedir / makelink) -------- *)
 Place(fs, k, t, L, w0) ==
     CASE k = "file" ->        \* open(L, "wb") goes through a symbolic link at L; mode and times follow the same way
@@ -145,13 +153,25 @@ Place(fs, k, t, L, w0) ==
             IN IF ~f.ok \/ kk = "dir" \/ Kind(fs, Parent(f.p)) # "dir" THEN Res(FALSE, fs, w0)
                ELSE IF kk = "hard" THEN Res(TRUE, fs, w0 \cup {f.p, Ent(fs, f.p).to})
                ELSE Res(TRUE, Put(fs, E(f.p, "file", <<>>)), w0 \cup {f.p})
-      [] k = "dir" ->         \* mkdir tolerates an existing entry; extractall sets mode and times of directory members at the very end
-            IF Kind(fs, L) = "none" THEN ResL(TRUE, Put(fs, E(L, "dir", <<>>)), w0 \cup {L}, {L})
-            ELSE ResL(TRUE, fs, w0, {L})
+      [] k = "dir" ->         \* mkdir tolerates an existing entry (mode and times: see ApplyMember)
+            IF Kind(fs, L) = "none" THEN Res(TRUE, Put(fs, E(L, "dir", <<>>)), w0 \cup {L})
+            ELSE Res(TRUE, fs, w0)
       [] OTHER ->             \* symbolic link: an existing non-directory entry is unlinked first, nothing is followed;
-                              \* over a directory the link cannot be made: tarfile reports a non-fatal error and goes on
+                              \* over a directory the link cannot be made: a non-fatal error
             IF Kind(fs, L) = "dir" THEN Res(TRUE, fs, w0)
             ELSE Res(TRUE, Put(fs, E(L, "sym", t)), w0 \cup {L})
+
+(* a link member that cannot be made: tarfile extracts the last earlier member whose (normalised) name is `key` at L   *)
+(* instead, at once and with that member's attributes (not for a symbolic link); attrs: the failed member is a hard    *)
+(* link, whose own mode and times are applied to what L names as well                                                 *)
+Fallback(fs, inp, i, key, L, w0, attrs, none) ==
+    LET J == {j \in 1..(i - 1) : Norm(inp[j].n) = Norm(key)}
+    IN IF J = {} THEN none
+       ELSE LET M == inp[CHOOSE j \in J : \A x \in J : x <= j]
+            IN IF M.k = "hard" THEN Res(FALSE, fs, w0)
+               ELSE LET r == Place(fs, M.k, M.t, L, w0)
+                    IN IF ~r.ok THEN r
+                       ELSE Res(TRUE, r.fs, r.w \cup (IF attrs \/ M.k # "sym" THEN Touched(r.fs, L) ELSE {}))
 
 (* ---- member i of archive inp extracted below directory `base` (tarfile._extract_member) ----------------------------- *)
 ApplyMember(fs, inp, i, base) ==
@@ -160,31 +180,25 @@ ApplyMember(fs, inp, i, base) ==
         fs1 == PutDirs(fs, par.made)
     IN IF ~par.ok THEN Res(FALSE, fs1, par.made)
        ELSE LET L == Loc(par.p, Last(m.n))
-            IN IF m.k = "sym" /\ Kind(fs1, L) = "dir" THEN
-                 \* a symbolic link over an existing directory cannot be made: tarfile falls back to extracting the earlier
-                 \* member its target names (relative to the link's directory) at L; without one: a non-fatal error, next member
-                 LET J == {j \in 1..(i - 1) : inp[j].n = Front(m.n) \o m.t}
-                 IN IF J = {} THEN Res(TRUE, fs1, par.made)
-                    ELSE LET M == inp[CHOOSE j \in J : \A x \in J : x <= j]
-                         IN IF M.k = "hard" THEN Res(FALSE, fs1, par.made) ELSE Place(fs1, M.k, M.t, L, par.made)
-               ELSE IF m.k # "hard" THEN Place(fs1, m.k, m.t, L, par.made)
-               ELSE
-                 \* hard link: os.link(<extraction root>/linkname, L) when that exists; the member's mode and times are then
-                 \* applied to the shared inode.  When the link cannot be made tarfile falls back to extracting the earlier
-                 \* member called linkname at L (and applies the hard-link member's attributes to what L names).
-                 LET r == Walk(base, Front(m.t), fs1, {}, Fuel, FALSE)
-                     X == IF r.ok THEN Final(Loc(r.p, Last(m.t)), fs1, Fuel) ELSE [ok |-> FALSE, p |-> <<>>]
-                     exists == X.ok /\ Kind(fs1, X.p) # "none"
-                     linkable == exists /\ Kind(fs1, X.p) \in {"file", "hard"} /\ Kind(fs1, L) = "none"
-                     J == {j \in 1..(i - 1) : inp[j].n = m.t}
-                 IN IF linkable
-                    THEN LET inode == IF Kind(fs1, X.p) = "hard" THEN Ent(fs1, X.p).to ELSE X.p
-                         IN Res(TRUE, Put(fs1, E(L, "hard", inode)), par.made \cup {L, inode})
-                    ELSE IF J = {} THEN Res(exists, fs1, par.made)      \* KeyError, or (link failed) the member is skipped
-                    ELSE LET M == inp[CHOOSE j \in J : \A x \in J : x <= j]
-                         IN IF M.k = "hard" THEN Res(FALSE, fs1, par.made)
-                            ELSE LET r2 == Place(fs1, M.k, M.t, L, par.made)
-                                 IN IF ~r2.ok THEN r2 ELSE Res(TRUE, r2.fs, r2.w \cup Touched(r2.fs, L))
+            IN CASE m.k = "dir" ->
+                      \* extractall sets mode and times of directory members when everything has been extracted, on the
+                      \* member's path as it resolves THEN: the name goes to `late`
+                      LET r == Place(fs1, "dir", m.t, L, par.made) IN ResL(r.ok, r.fs, r.w, {m.n})
+                 [] m.k = "sym" /\ Kind(fs1, L) = "dir" ->
+                      Fallback(fs1, inp, i, Front(m.n) \o m.t, L, par.made, FALSE, Res(TRUE, fs1, par.made))
+                 [] m.k \in {"file", "sym"} -> Place(fs1, m.k, m.t, L, par.made)
+                 [] OTHER ->
+                      \* hard link: os.link(<extraction root>/linkname, L) when that exists; the member's mode and times are
+                      \* then applied to the shared inode
+                      LET r == Walk(base, Front(m.t), fs1, {}, Fuel, FALSE)
+                          X == IF r.ok THEN Final(Loc(r.p, Last(m.t)), fs1, Fuel) ELSE [ok |-> FALSE, p |-> <<>>]
+                          exists == X.ok /\ Kind(fs1, X.p) # "none"
+                          linkable == exists /\ Kind(fs1, X.p) \in {"file", "hard"} /\ Kind(fs1, L) = "none"
+                      IN IF linkable
+                         THEN LET inode == IF Kind(fs1, X.p) = "hard" THEN Ent(fs1, X.p).to ELSE X.p
+                              IN Res(TRUE, Put(fs1, E(L, "hard", inode)), par.made \cup {L, inode})
+                         \* no member to fall back to: KeyError when the target does not exist, else the member is skipped
+                         ELSE Fallback(fs1, inp, i, m.t, L, par.made, TRUE, Res(exists, fs1, par.made))
 
 (* ---- one manifest entry deployed below the instance directory ------------------------------------------------------ *)
 ApplyEntry(fs, m) ==
@@ -230,7 +244,9 @@ Apply(fs, inp, i) == CASE Mode = "archive" -> ApplyMember(fs, inp, i, Target)
 
 (* the whole input carried out faithfully: [w: everything written, failed: an operation failed].  The attributes of  *)
 (* directory members (late) are applied when all members have been extracted, to what their paths name THEN.          *)
-Late(fs, late) == UNION {Touched(fs, L) : L \in late}
+TouchedName(fs, n) == LET par == Walk(Target, Front(n), fs, {}, Fuel, FALSE)
+                      IN IF ~par.ok THEN {} ELSE Touched(fs, Loc(par.p, Last(n)))
+Late(fs, late) == UNION {TouchedName(fs, n) : n \in late}
 RECURSIVE Run(_, _, _, _, _)
 Run(fs, inp, i, w, late) ==
     IF i > Len(inp) THEN [w |-> w \cup Late(fs, late), failed |-> FALSE, fs |-> fs]
